@@ -484,6 +484,9 @@ Proof.
     apply (chain_assigns (fun a => names_key (assign_map a) = false)); auto.
   - cbn [res_tbl]. unfold save_slice_run. now apply slice_run_wf.
   - now apply save_omit_wf.
+  - unfold create_u. destruct (if r_id (fill_times now v) =? 0 then None else lookup t _) as [old|].
+    + destruct (rule_fires ru old && _); [exact Hwf|now apply create_wf].
+    + destruct (email_clash t _ _); [destruct (untargeted_nothing ru tgt); exact Hwf|now apply create_wf].
 Qed.
 
 (* a history = steps (now, chain, finisher) applied to the evolving table *)
@@ -536,4 +539,71 @@ Lemma save_slice_wf_len t now vs : wf t ->
   wf (fst (save_slice_run t now vs)) /\ length (snd (save_slice_run t now vs)) = length vs.
 Proof.
   intros Hwf. unfold save_slice_run. split; [now apply slice_run_wf|]. now rewrite slice_run_len.
+Qed.
+
+(* ---- Omit(...).Save with an empty Omit list is Save ------------------------------------------------ *)
+Lemma upd_where_ext p f g t : (forall r, p r = true -> f r = g r) -> upd_where p f t = upd_where p g t.
+Proof.
+  intros H. unfold upd_where. apply map_ext_in. intros r _. destruct (p r) eqn:E; [now apply H|reflexivity].
+Qed.
+
+Lemma with_id_self v : with_id (r_id v) v = v.
+Proof. now destruct v. Qed.
+
+Lemma copy_all_into v r : r_id r = r_id v -> copy_cols save_cols v r = v.
+Proof. destruct v as [i n a e ct ut d], r as [i' n' a' e' ct' ut' d']; destruct d; cbn; intros ->; reflexivity. Qed.
+
+Lemma copy_times_fill now v : copy_cols [CCat; CUat] (fill_times now v) v = fill_times now v.
+Proof. now destruct v. Qed.
+
+Lemma copy_all_zero k v : with_id k (copy_cols save_cols v zero_rec) = with_id k v.
+Proof. destruct v as [i n a e ct ut d]; destruct d; reflexivity. Qed.
+
+Lemma create_omit_nil t now v up :
+  create_omit t now [] up v = create t now (if up then Some RAll else None) v.
+Proof.
+  unfold create_omit, create. change (kept [] [CCat; CUat]) with [CCat; CUat].
+  change (kept [] save_cols) with save_cols. change (kept [] [CName; CAge; CEmail; CDel]) with [CName; CAge; CEmail; CDel].
+  rewrite copy_times_fill. set (v1 := fill_times now v). rewrite copy_all_zero.
+  destruct (r_id v1 =? 0) eqn:Z; [reflexivity|].
+  rewrite with_id_self. destruct (lookup t (r_id v1)) as [old|]; [|reflexivity].
+  destruct up; reflexivity.
+Qed.
+
+Lemma save_omit_nil t now v : save_omit t now [] v = save t now v.
+Proof.
+  unfold save_omit, save. destruct (r_id v =? 0) eqn:Z; [apply (create_omit_nil t now v false)|].
+  change (omitted [] CUat) with false. cbv iota. change (kept [] save_cols) with save_cols.
+  destruct (0 <? count_where _ t).
+  - f_equal. apply upd_where_ext. intros r Hr. apply copy_all_into.
+    apply andb_prop in Hr. destruct Hr as [Hr _]. apply Z.eqb_eq in Hr. now rewrite with_uat_id.
+  - now rewrite (create_omit_nil t now (with_uat now v) true).
+Qed.
+
+(* ---- the second unique index -------------------------------------------------------------------------- *)
+Lemma create_rule_no_err t now ru v : res_err (create t now (Some ru) v) = false.
+Proof.
+  unfold create. destruct (r_id (fill_times now v) =? 0); [reflexivity|].
+  destruct (lookup t _) as [old|]; [destruct (rule_fires ru old)|]; reflexivity.
+Qed.
+
+(* a collision on the unique e-mail index is an error that leaves the table untouched; it is swallowed
+   only by DO NOTHING without a conflict target, and then nothing is written either *)
+Lemma create_u_clash t now ru tgt v : r_id v <> 0 -> lookup t (r_id v) = None ->
+  email_clash t (r_id v) (r_email v) = true ->
+  let r := create_u t now ru tgt v in
+  res_tbl r = t /\ res_err r = negb (untargeted_nothing ru tgt) /\ res_ra r = 0.
+Proof.
+  intros Hz L C. cbn. unfold create_u.
+  assert (E : r_email (fill_times now v) = r_email v) by now destruct v.
+  rewrite fill_times_id, E. destruct (r_id v =? 0) eqn:Z; [apply Z.eqb_eq in Z; congruence|].
+  rewrite L, C. destruct (untargeted_nothing ru tgt); auto.
+Qed.
+
+Lemma create_u_err t now ru tgt v : res_err (create_u t now ru tgt v) = true -> res_tbl (create_u t now ru tgt v) = t.
+Proof.
+  unfold create_u. destruct (if r_id (fill_times now v) =? 0 then None else lookup t _) as [old|].
+  - destruct (rule_fires ru old && _); [reflexivity|]. now rewrite create_rule_no_err.
+  - destruct (email_clash t _ _); [destruct (untargeted_nothing ru tgt); [discriminate|reflexivity]|].
+    now rewrite create_rule_no_err.
 Qed.
